@@ -20,6 +20,7 @@ func init() {
 	generators["health2"] = genHealth2
 	generators["multiterm"] = genMultiTerm
 	generators["yieldstop"] = genYieldStop
+	generators["restartinflight"] = genRestartInFlight
 }
 
 func anyLatency(r rng, h time.Duration) Latency {
@@ -705,6 +706,31 @@ func genConnection(r rng, k int) *Spec {
 	if n > 1 {
 		s.Actions = append(s.Actions, Action{At: 300 * ms, Kind: "start", Inst: "i1"})
 	}
+	if k%5 == 4 {
+		// reconnect, a second outage during which the record changes hands while the
+		// first verification's read is still in flight, reconnect again
+		t := 1*sec + r.dur(0, h)
+		s.Breaks = append(s.Breaks, BreakSpec{Name: "vr", Client: "i0", Op: "Get", Nth: 1 + r.IntN(2), Phase: "resp"})
+		usurper := `{"id":"usurper","token":"u-2"}`
+		s.Actions = append(s.Actions,
+			Action{At: t, Kind: "conn", Inst: "i0", Val: "D"},
+			Action{After: r.dur(ms, 50*ms), Kind: "arm", Break: "vr"},
+			Action{After: time.Nanosecond, Kind: "conn", Inst: "i0", Val: "R"},
+			Action{After: ms, Kind: "waitbreak", Break: "vr", D: 2 * sec},
+			Action{After: time.Nanosecond, Kind: "conn", Inst: "i0", Val: "D"},
+			Action{After: r.dur(time.Nanosecond, 5*ms), Kind: "output", Inst: "g0", Val: usurper},
+			Action{After: r.dur(time.Nanosecond, 5*ms), Kind: "conn", Inst: "i0", Val: "R"},
+			Action{After: r.dur(ms, 30*ms), Kind: "release", Break: "vr"},
+		)
+		// keep the usurper's record alive so that only the verification can notice in time
+		for j := 1; j <= 12; j++ {
+			s.Actions = append(s.Actions, Action{At: t + 200*ms + time.Duration(j)*s.TTL/2, Kind: "output", Inst: "g0", Val: usurper})
+		}
+		s.Insts[0].ValInterval = 0
+		s.Duration = 2*G + 4*sec
+		s.Sample = sampleFor(h)
+		return s
+	}
 	t := 1*sec + r.dur(0, h)
 	L := 1 + r.IntN(6)
 	gaps := []time.Duration{0, ms, 99 * ms, 100 * ms, 101 * ms, G - ms, G, G + ms, 2 * G, G / 2, 3 * sec}
@@ -993,6 +1019,71 @@ func genYieldStop(r rng, k int) *Spec {
 		s.Benign = false
 	}
 	s.Duration = 9 * sec
+	s.Sample = sampleFor(h)
+	return s
+}
+
+// ---------------------------------------------------------------------------
+// restartinflight: an acquisition's store call is in flight across a stop call and
+// the following Start; its (successful) answer arrives in the new run
+// ---------------------------------------------------------------------------
+
+// RestartInFlightTotal is the size of the enumeration.
+func RestartInFlightTotal() int { return 3 * 2 * 4 * 3 }
+
+func genRestartInFlight(r rng, k int) *Spec {
+	idx := k % RestartInFlightTotal()
+	tmpl := []string{"first", "succession", "takeover"}[idx%3]
+	idx /= 3
+	phase := []string{"req", "resp"}[idx%2]
+	idx /= 2
+	stopv := []StopVariant{
+		{DeleteKey: false, Wait: false, Timeout: 200 * ms}, // gives up quickly: the restart follows at once
+		{DeleteKey: true, Wait: true, Timeout: 200 * ms},
+		{Plain: true}, // waits its 5 s for the parked (tracked) goroutine
+		{DeleteKey: true, Wait: false, CtxKind: "cancelmid", CtxD: 100 * ms, Timeout: 10 * sec},
+	}[idx%4]
+	idx /= 4
+	delta := []time.Duration{0, 10 * ms, 1 * sec}[idx%3]
+	// TTL well above the 5 s a plain Stop waits for the parked goroutine: the record written
+	// by the in-flight call is still live when its answer arrives in the new run (answers
+	// delayed beyond the TTL are the lifecycle class's business)
+	h := r.pickD(1*sec, 2*sec)
+	s := &Spec{TTL: 10 * h, Tags: []string{"lifecycle", "restartinflight", tmpl}, NoPreempt: tmpl != "takeover"}
+	s.Lat = Latency{Min: 2 * ms, Max: 10 * ms}
+	s.Watch = WatchPolicy{DelayMax: r.pickD(0, 20*ms)}
+	s.Insts = mkInsts(2, 1, h)
+	for i := range s.Insts {
+		s.Insts[i].BlockPromote = true
+	}
+	x := "i0"
+	var b BreakSpec
+	switch tmpl {
+	case "first":
+		s.Insts = s.Insts[:1]
+		b = BreakSpec{Name: "rf", Client: "i0", Op: "Create", Nth: 1, Phase: phase, Armed: true}
+		s.Actions = append(s.Actions, Action{At: 10 * ms, Kind: "start", Inst: "i0"})
+	case "succession":
+		x = "i1"
+		b = BreakSpec{Name: "rf", Client: "i1", Op: "Create", Nth: 2, Phase: phase, Armed: true}
+		s.Actions = append(s.Actions, Action{At: 10 * ms, Kind: "start", Inst: "i0"}, Action{At: 500 * ms, Kind: "start", Inst: "i1"},
+			Action{At: 3 * sec, Kind: "stop", Inst: "i0", Stop: &StopVariant{DeleteKey: true}})
+	case "takeover":
+		x = "i1"
+		s.Insts[0].Priority, s.Insts[1].Priority = 1, 2
+		s.Insts[1].Takeover = true
+		b = BreakSpec{Name: "rf", Client: "i1", Op: "Update", Nth: 1, Phase: phase, Armed: true}
+		s.Actions = append(s.Actions, Action{At: 10 * ms, Kind: "start", Inst: "i0"}, Action{At: 1500 * ms, Kind: "start", Inst: "i1"})
+	}
+	s.Breaks = []BreakSpec{b}
+	sv := stopv
+	s.Actions = append(s.Actions,
+		Action{After: ms, Kind: "waitbreak", Break: "rf", D: 12 * sec},
+		Action{After: time.Nanosecond, Kind: "restart", Inst: x, Stop: &sv},
+		Action{After: ms, Kind: "waitapi", Inst: x, D: 8 * sec},
+		Action{After: delta + time.Nanosecond, Kind: "release", Break: "rf"},
+	)
+	s.Duration = 6*h + 6*sec
 	s.Sample = sampleFor(h)
 	return s
 }
